@@ -17,7 +17,16 @@ import (
 
 func init() { Props["C03"] = runC03 }
 
-var c03Kinds = []FaultKind{FaultTransient, FaultPersistent, FaultCtx}
+var c03Kinds = []FaultKind{FaultTransient, FaultPersistent, FaultCtx, FaultConflict}
+
+// c03Exec numbers the executions of a case; the first three kinds keep the
+// numbering that earlier replay files refer to.
+func c03Exec(k, ki int) int {
+	if ki < 3 {
+		return 1 + (k-1)*3 + ki
+	}
+	return 1_000_000 + (k-1)*8 + ki
+}
 
 func runC03(env *Env, rc *RunCtx) {
 	c := GenCase(rc.CaseTape, GenOpts{Enc: -1, Gadgets: true})
@@ -95,7 +104,7 @@ func runC03(env *Env, rc *RunCtx) {
 	}
 	for _, k := range ks {
 		for ki, kind := range c03Kinds {
-			e := 1 + (k-1)*len(c03Kinds) + ki
+			e := c03Exec(k, ki)
 			if rc.SkipExec(e) {
 				continue
 			}
